@@ -3,6 +3,7 @@
 package main
 
 import (
+	"bufio"
 	"bytes"
 	"encoding/json"
 	"errors"
@@ -24,6 +25,7 @@ type verifScenario struct {
 	inputFlag   bool // -input given
 	readFails   bool // reading the input fails
 	badJSON     bool // input is not JSON
+	trailing    bool // input is a JSON value followed by garbage (invalid as a whole)
 	parseFails  bool // expression does not parse
 	syntaxErr   bool // ... with a SyntaxError (else another error)
 	searchFails bool // evaluation error
@@ -86,6 +88,27 @@ func verifReadFile(name string) ([]byte, error) {
 	return []byte("DATA"), nil
 }
 func verifReadAll(r io.Reader) ([]byte, error) { return verifReadFile("") }
+func verifOsOpen(name string) (*os.File, error) {
+	if verifSc.readFails {
+		return nil, errors.New("open error")
+	}
+	return nil, nil
+}
+func verifFileClose(f *os.File) error                { return nil }
+func verifNewDecoder(r io.Reader) *json.Decoder      { return nil }
+func verifBufioNewReader(r io.Reader) *bufio.Reader  { return nil }
+func verifDecode(d *json.Decoder, v interface{}) error {
+	// a Decoder reads one value and does not look at what follows it
+	if verifSc.badJSON && !verifSc.trailing {
+		return errors.New("invalid json")
+	}
+	p, ok := v.(*interface{})
+	if !ok {
+		return errors.New("unexpected target")
+	}
+	*p = verifDoc
+	return nil
+}
 func verifUnmarshal(data []byte, v interface{}) error {
 	if verifSc.badJSON {
 		return errors.New("invalid json")
@@ -126,6 +149,9 @@ func verifRunNative(sc verifScenario) (code int, stdout string, want string) {
 	input := `{"a":{"b":[1,"100% done %s %d %%","x\ny <&> \u00e9",null,{"c":1.5,"%v":"%"}]}}`
 	if sc.badJSON {
 		input = "{"
+		if sc.trailing {
+			input = `{"a":{"b":[1,2]}} trailing`
+		}
 	}
 	dir, _ := ioutil.TempDir("", "jpgo-verif")
 	defer os.RemoveAll(dir)
@@ -161,7 +187,7 @@ func verifRunNative(sc verifScenario) (code int, stdout string, want string) {
 	errF.Close()
 	b, _ := ioutil.ReadFile(dir + "/out")
 	var data interface{}
-	if json.Unmarshal([]byte(input), &data) == nil {
+	if !sc.badJSON && json.Unmarshal([]byte(input), &data) == nil {
 		if r, err := jmespath.Search(expr, data); err == nil {
 			var buf bytes.Buffer
 			j, _ := json.MarshalIndent(r, "", "  ")
@@ -174,11 +200,12 @@ func verifRunNative(sc verifScenario) (code int, stdout string, want string) {
 }
 
 func VerifRun() {
-	sc := verifScenario{nargs: verifChoose(3), inputFlag: verifNondetBool(), readFails: verifNondetBool(), badJSON: verifNondetBool(),
+	sc := verifScenario{nargs: verifChoose(3), inputFlag: verifNondetBool(), readFails: verifNondetBool(), badJSON: verifNondetBool(), trailing: verifNondetBool(),
 		parseFails: verifNondetBool(), syntaxErr: verifNondetBool(), searchFails: verifNondetBool()}
 	// only a named file can fail to be read in the native realisation
 	verifAssume(!sc.readFails || sc.inputFlag)
 	verifAssume(!sc.syntaxErr || sc.parseFails)
+	verifAssume(!sc.trailing || sc.badJSON)
 	// an expression has one fate
 	verifAssume(!(sc.parseFails && sc.searchFails))
 	expectOK := sc.nargs == 1 && !sc.readFails && !sc.badJSON && !sc.parseFails && !sc.searchFails
